@@ -114,7 +114,16 @@ def run_case(case: dict) -> dict:
             (root / "LICENSES").mkdir(exist_ok=True)
             (root / "LICENSES" / "LicenseRef-twice.txt").write_text("first text of LicenseRef-twice\n")
             (root / "LICENSES" / "LicenseRef-twice.md").write_text("# second, different text of LicenseRef-twice\n")
-        sub = next((x for x in sorted(root.iterdir()) if x.is_dir() and x.name not in ("LICENSES", ".reuse")), root)
+        if case.get("git_submodule"):
+            # a Git work tree with a registered submodule: skipped from wherever the tool is started
+            import subprocess
+            (root / "vendor-sm" / "pkg").mkdir(parents=True)
+            (root / "vendor-sm" / "pkg" / "inner.py").write_text("inner = 1\n")
+            (root / ".gitmodules").write_text('[submodule "vendor-sm"]\n\tpath = vendor-sm\n\turl = https://example.com/vendor-sm.git\n')
+            genv = dict(os.environ, GIT_CONFIG_GLOBAL="/dev/null", GIT_CONFIG_SYSTEM="/dev/null", HOME=str(top))
+            subprocess.run(["git", "init", "-q"], cwd=root, env=genv, check=True, capture_output=True)
+            subprocess.run(["git", "add", "-A"], cwd=root, env=genv, check=True, capture_output=True)
+        sub = next((x for x in sorted(root.iterdir()) if x.is_dir() and x.name not in ("LICENSES", ".reuse", ".git", "vendor-sm")), root)
         base = ["--root", str(root), "--no-multiprocessing"]
         runs = []
         runs.append(one_run("serial|cwd=outside|root=abs", base, root, d, True))
@@ -228,7 +237,7 @@ def run(ctx: core.Ctx) -> int:
                       "home": [".", "subprojects", "LICENSES/x", ".", "my dir/.reuse"][i % 5],
                       "rootname": ["root", "pr[1]oj", "subprojects", "LICENSES", "root", ".reuse", "COPYING", "x.license", "what?*"][i % 9],
                       "copyname": [None, "subprojects", "other", "LICENSES", ".git", "a.spdx", "REUSE.toml", "we[i]rd"][i % 8],
-                      "dup_license": i % 6 == 5,
+                      "dup_license": i % 6 == 5, "git_submodule": i % 4 == 3,
                       "scandir_seeds": 2 if q else 4,
                       "scheds": rnd.sample(scheds, min(len(scheds), 3 if q else 8)),
                       "real_workers": [1, 2, 16] if q else [1, 2, 3, 4, 8, 16],
